@@ -82,16 +82,27 @@ PROPS = {
                      "non-ASCII strings, maps with keys of every type, arrays of every element kind (10% of the known-finding kinds); "
                      "dec cases: the encodings, 2 structure-aware corruptions of each, a catalogue of hostile inputs (former panics, "
                      "huge lengths, odd counts, nesting), all 1-byte strings (all 2-byte strings in thorough), random short strings; "
-                     "plus nested inputs decoded in a child process for the stack-depth probe"}],
+                     "plus nested inputs decoded in a child process for the stack-depth probe"},
+            {"name": "comp", "n_quick": 700, "n_thorough": 8000, "model": "coq/Codec/Composite.v, coq/Codec/CompositeSpec.v",
+             "rule": "28 list-encoded composite types (9 performatives, Error, Source, Target, Coordinator, Header, Properties, 4 SASL frame bodies, "
+                     "Received / Accepted / Rejected / Released / Modified, Declare / Discharge / Declared / TransactionalState): the field vector of a "
+                     "generated item is read through impls the translator writes from the struct definitions of this run; `canon`: to_vec(x) against "
+                     "the model's serializer (pending nulls, trailing-field elision) and the decoded field vector; `var`: three spec-valid layouts per "
+                     "item (absent fields as null / written out / an empty array, trailing absent fields kept or dropped, list8/list32, descriptor by "
+                     "code in two widths or by name in two) and five broken ones (list cut short, null in a random position, count beyond the bytes, "
+                     "one element too many, foreign descriptor) through from_slice::<T> and dec_composite; the schema the model runs is the "
+                     "specification table's and must equal what the case line reports of the code (kinds, Default::default() values)"}],
         "rule": "a case is `enc <value>` (to_vec vs model enc, then from_slice(to_vec(v)) == v on the implementation) or `dec <bytes>` "
                 "(from_slice vs model dec); non-trivial = an enc case outside the known-finding class that round-trips; distinct by case text",
         "trusted": ["model scope: impl Serialize/Deserialize for Value, ser.rs Serializer (all serialize_* used by Value, write_list/map/array), "
                     "de.rs Deserializer (parse_*, deserialize_seq/map/enum/identifier, List/Array/Map/DescribedAccess), value/de.rs visitor; "
-                    "typed composites (derive macros) are checked by the typed sub-harness on the implementation only, not modelled in Coq",
+                    "typed composites: the derive macros' list encoding and DescribedAccess are modelled in coq/Codec/Composite.v at the level of field "
+                    "vectors (each field decoded by the value decoder: the typed field decoders agree with it on type-correct input, which is what the comp "
+                    "cases exercise); enums dispatching on descriptors, map-encoded and basic-encoded types are checked by the typed sub-harness only",
                     "floats, chars, signed integers and timestamps are modelled as bit patterns"],
         "assumptions": ["wf: AMQP type system + decoder count cap; arrays of null/list/map/array/described elements excluded (known finding)"],
-        "partial": ["typed protocol items (performatives, SASL, delivery states, messages): round trip is exercised on the implementation "
-                    "(sub-harness typed) but there is no Coq theorem about the derive macros"],
+        "partial": ["typed layer: the theorems cover the list-encoded composite types at the level of field vectors; message sections with basic encoding, "
+                    "the Performative / DeliveryState / Outcome enums and whole messages are exercised on the implementation (sub-harness typed) only"],
     },
     "C04": {
         "class_prefixes": ["c04-", "harness-crash"],
@@ -521,6 +532,15 @@ PROPS = {
                      "and through the reference decoder (both must be the value)"},
             {"name": "codec", "n_quick": 300, "n_thorough": 20000, "model": "coq/Codec/Dec.v, coq/Codec/Enc.v",
              "rule": "the enc/dec correspondence of C03/C04: ties the encoder and decoder models used by the theorems to the code"},
+            {"name": "comp", "marker_violation": {"prefix": "SCHEMA-MISMATCH", "class": "c05-comp-schema"}, "n_quick": 700, "n_thorough": 8000, "model": "coq/Codec/Composite.v, coq/Codec/CompositeSpec.v",
+             "rule": "28 list-encoded composite types (9 performatives, Error, Source, Target, Coordinator, Header, Properties, 4 SASL frame bodies, "
+                     "Received / Accepted / Rejected / Released / Modified, Declare / Discharge / Declared / TransactionalState): the field vector of a "
+                     "generated item is read through impls the translator writes from the struct definitions of this run; `canon`: to_vec(x) against "
+                     "the model's serializer (pending nulls, trailing-field elision) and the decoded field vector; `var`: three spec-valid layouts per "
+                     "item (absent fields as null / written out / an empty array, trailing absent fields kept or dropped, list8/list32, descriptor by "
+                     "code in two widths or by name in two) and five broken ones (list cut short, null in a random position, count beyond the bytes, "
+                     "one element too many, foreign descriptor) through from_slice::<T> and dec_composite; the schema the model runs is the "
+                     "specification table's and must equal what the case line reports of the code (kinds, Default::default() values)"},
         ],
         "rule": "c05: a case is one byte string; compared: the value the reference decoder (Coq, extracted) assigns to it and the value the real decoder / the generator assigns; "
                 "non-trivial = a variant encoding that differs from the encoder's own",
@@ -528,7 +548,8 @@ PROPS = {
                     "specification is silent (an empty array may omit its element constructor)",
                     "the harness's variant encoder (independent of the library's encoder)"],
         "assumptions": ["values within the C03 scope: arrays of null / compound / described elements are outside (known findings of C03)"],
-        "partial": ["typed composite forms (trailing-field elision, null-for-default, list-vs-map composites) are exercised by the typed round-trip harness of C03, not by a theorem",
+        "partial": ["typed composite forms: list-encoded composites are covered by theorems (every layout accepted, field order and kinds tied to the specification table); "
+                    "map-encoded composites and the typed decoding of a single field (e.g. a ulong where a uint is expected) are exercised by the typed harness only",
                     "the acceptance theorem holds under lib_compatible (two array classes excluded, refuted with witnesses) and nodup_keys (invalid per the specification)"],
     },
 }
